@@ -5,6 +5,7 @@ line, one result line per operation.  Core Lean only (compiled as a lean_exe).
 import RichchkModel.Model.Dump
 import RichchkModel.Generated.Layouts
 import RichchkModel.Spec.Layouts
+import RichchkModel.Generated.Codecs
 open Richchk
 
 def showR {α} (f : α → String) : R α → String
@@ -66,6 +67,54 @@ def jsonLayout : SecLayout → String
 def jsonTable (t : SecTable) : String :=
   "[" ++ ",".intercalate (t.map fun (n, L) => "{\"name\":" ++ jsonStr (hexOfBytes n) ++ ",\"layout\":" ++ jsonLayout L ++ "}") ++ "]"
 
+def boolStr (bs : List Bool) : String := String.ofList (bs.map fun b => if b then '1' else '0')
+
+def opFlags (name nStr : String) : String :=
+  match Generated.flagCodecs.lookup name, nStr.toNat? with
+  | some c, some n =>
+    let d := c.decode n
+    boolStr d ++ " " ++ toString (c.encode d)
+  | _, _ => "bad-op"
+
+def opFlagsEnc (name bits : String) : String :=
+  match Generated.flagCodecs.lookup name with
+  | some c =>
+    let vals := bits.toList.map (· == '1')
+    if vals.length ≠ c.fields.length then "bad-op" else
+    let n := c.encode vals
+    toString n ++ " " ++ boolStr (c.decode n)
+  | none => "bad-op"
+
+def opEnum (name nStr : String) : String :=
+  match Generated.enums.lookup name, nStr.toNat? with
+  | some e, some n =>
+    match decodeEnum e n with
+    | .ok m => "OK " ++ m.member ++ " " ++ toString (encodeEnum m)
+    | .error err => "ERR " ++ toString err
+  | _, _ => "bad-op"
+
+def opAi (vStr : String) : String :=
+  match vStr.toNat? with
+  | some v =>
+    match decodeAi (Generated.knownAiScripts.map (·.2)) v with
+    | .error e => "ERR " ++ toString e
+    | .ok (k, name) =>
+      let member := if k then ((Generated.knownAiScripts.find? (·.2 == name)).map (·.1)).getD "?" else "UNKNOWN"
+      "OK " ++ member ++ " " ++ hexOfBytes name ++ " " ++ showR toString (encodeAi name)
+  | none => "bad-op"
+
+def opHp (rawStr : String) : String :=
+  match rawStr.toNat? with
+  | some raw =>
+    let h : Hp := ⟨raw, Generated.hpDecodeDivisor⟩
+    toString h.num ++ "/" ++ toString h.den ++ " " ++ toString (h.num * Generated.hpEncodeMultiplier / h.den)
+  | none => "bad-op"
+
+def opHpEnc (numStr denStr : String) : String :=
+  match numStr.toNat?, denStr.toNat? with
+  | some num, some den => if den = 0 then "bad-op" else toString (num * Generated.hpEncodeMultiplier / den)
+  | _, _ => "bad-op"
+
 def step (line : String) : String :=
   match line.trimAscii.toString.splitOn " " with
   | ["dec", h] => opDec h
@@ -73,6 +122,12 @@ def step (line : String) : String :=
   | ["sec", n, h] => opSec n h
   | ["secrt", n, h] => opSecRt n h
   | ["spec-layouts"] => jsonTable Spec.specTable
+  | ["flags", nm, n] => opFlags nm n
+  | ["flagsenc", nm, b] => opFlagsEnc nm b
+  | ["enum", nm, n] => opEnum nm n
+  | ["ai", v] => opAi v
+  | ["hp", r] => opHp r
+  | ["hpenc", a, b] => opHpEnc a b
   | ["gen-layouts"] => jsonTable Generated.decTable
   | _ => "bad-op"
 
